@@ -8,6 +8,10 @@ fn main() {
         "C31" => e5::c31(&args),
         "C28" => e5::c28(&args),
         "C11" => e2_store::c11(&args),
+        "C27" => e2_handler::c27(&args),
+        "C30" => e2_handler::c30(&args),
+        "C32" => e2_handler::c32(&args),
+        "C29" => e2_handler::c29(&args),
         "C12" => e2_store::c12(&args),
         "C14" => e2_store::c14(&args),
         other => {
